@@ -320,33 +320,145 @@ fn payload_msg(e: Box<dyn std::any::Any + Send>) -> String {
     }
 }
 
+pub fn stack_size() -> usize {
+    std::env::var("VERIF_STACK_KB").ok().and_then(|s| s.parse::<usize>().ok()).unwrap_or(256) << 10
+}
+
 pub const MAX_SCHED_STEPS: usize = 20_000_000;
 
+// ---------------------------------------------------------------------------------------
+// Executor threads. shuttle keeps its pool of coroutine stacks per `Runner::run` call, so a
+// fresh Runner per simulated execution would mmap/munmap every simulated thread's stack —
+// and those system calls serialise all harness workers on the process's memory-map lock.
+// Instead every harness worker owns one long-lived executor thread running ONE Runner whose
+// scheduler blocks in `new_execution()` until the next job arrives. One job = one simulated
+// execution = one scheduler instance, exactly as before; only the stacks are recycled.
+
+type JobFn = Box<dyn FnOnce() + Send>;
+
+struct Job {
+    spec: SchedSpec,
+    f: JobFn,
+}
+
+struct Done {
+    out: SchedOut,
+    failure: Option<String>,
+}
+
+struct ChanSched {
+    jobs: Arc<Mutex<std::sync::mpsc::Receiver<Job>>>,
+    done: std::sync::mpsc::Sender<Done>,
+    slot: Arc<Mutex<Option<JobFn>>>,
+    out: Arc<Mutex<SchedOut>>,
+    inner: Option<Sched>,
+    running: bool,
+}
+
+impl Scheduler for ChanSched {
+    fn new_execution(&mut self) -> Option<Schedule> {
+        if self.running {
+            // the previous job ran to completion
+            self.running = false;
+            let out = std::mem::take(&mut *self.out.lock().unwrap());
+            let _ = self.done.send(Done { out, failure: None });
+        }
+        let job = self.jobs.lock().unwrap().recv().ok()?;
+        *self.out.lock().unwrap() = SchedOut::default();
+        let seed = job.spec.seed;
+        self.inner = Some(Sched::new(job.spec, self.out.clone()));
+        *self.slot.lock().unwrap() = Some(job.f);
+        self.running = true;
+        Some(Schedule::new(seed))
+    }
+
+    fn next_task(&mut self, runnable: &[&Task], current: Option<TaskId>, is_yielding: bool) -> Option<TaskId> {
+        self.inner.as_mut().expect("no job").next_task(runnable, current, is_yielding)
+    }
+
+    fn next_u64(&mut self) -> u64 {
+        self.inner.as_mut().expect("no job").next_u64()
+    }
+}
+
+fn executor_main(jobs: std::sync::mpsc::Receiver<Job>, done: std::sync::mpsc::Sender<Done>) {
+    let jobs = Arc::new(Mutex::new(jobs));
+    loop {
+        let slot: Arc<Mutex<Option<JobFn>>> = Arc::new(Mutex::new(None));
+        let out = Arc::new(Mutex::new(SchedOut::default()));
+        let sched = ChanSched { jobs: jobs.clone(), done: done.clone(), slot: slot.clone(), out: out.clone(), inner: None, running: false };
+        let mut cfg = shuttle::Config::new();
+        // every simulated thread of an execution keeps its stack until the execution ends, and
+        // long runs spawn thousands of short-lived workers: keep stacks small (the recursion
+        // depth of the solvers is the tree depth, <= ~15 frames)
+        cfg.stack_size = stack_size();
+        cfg.failure_persistence = shuttle::FailurePersistence::None;
+        cfg.silence_warnings = true;
+        cfg.max_steps = shuttle::MaxSteps::FailAfter(MAX_SCHED_STEPS);
+        let runner = shuttle::Runner::new(sched, cfg);
+        let r = std::panic::catch_unwind(std::panic::AssertUnwindSafe(move || {
+            runner.run(move || {
+                let f = slot.lock().unwrap().take().expect("executor: no job in slot");
+                f();
+            });
+        }));
+        match r {
+            Ok(()) => return, // job channel closed
+            Err(e) => {
+                let o = std::mem::take(&mut *out.lock().unwrap());
+                if done.send(Done { out: o, failure: Some(payload_msg(e)) }).is_err() {
+                    return;
+                }
+            }
+        }
+    }
+}
+
+struct Executor {
+    tx: std::sync::mpsc::Sender<Job>,
+    rx: std::sync::mpsc::Receiver<Done>,
+}
+
+thread_local! {
+    static EXEC: std::cell::RefCell<Option<Executor>> = const { std::cell::RefCell::new(None) };
+}
+
+fn submit(job: Job) -> Done {
+    EXEC.with(|e| {
+        let mut e = e.borrow_mut();
+        if e.is_none() {
+            let (tx, jrx) = std::sync::mpsc::channel::<Job>();
+            let (dtx, rx) = std::sync::mpsc::channel::<Done>();
+            std::thread::Builder::new()
+                .name("sim-executor".into())
+                .stack_size(16 << 20)
+                .spawn(move || executor_main(jrx, dtx))
+                .expect("cannot start executor thread");
+            *e = Some(Executor { tx, rx });
+        }
+        let ex = e.as_ref().unwrap();
+        ex.tx.send(job).expect("executor thread gone");
+        ex.rx.recv().expect("executor thread gone")
+    })
+}
+
 /// Run `f` as one simulated execution under `spec`.
-pub fn simulate<T: Send + 'static>(spec: &SchedSpec, f: impl Fn() -> T + Send + Sync + 'static) -> SimResult<T> {
-    let out = Arc::new(Mutex::new(SchedOut::default()));
-    let mut cfg = shuttle::Config::new();
-    cfg.stack_size = 8 << 20;
-    cfg.failure_persistence = shuttle::FailurePersistence::None;
-    cfg.silence_warnings = true;
-    cfg.max_steps = shuttle::MaxSteps::FailAfter(MAX_SCHED_STEPS);
-    let runner = shuttle::Runner::new(Sched::new(spec.clone(), out.clone()), cfg);
+pub fn simulate<T: Send + 'static>(spec: &SchedSpec, f: impl FnOnce() -> T + Send + 'static) -> SimResult<T> {
     let slot: Arc<Mutex<Option<T>>> = Arc::new(Mutex::new(None));
     let slot2 = slot.clone();
-    let r = std::panic::catch_unwind(std::panic::AssertUnwindSafe(move || {
-        runner.run(move || {
+    let done = submit(Job {
+        spec: spec.clone(),
+        f: Box::new(move || {
             let v = f();
             *slot2.lock().unwrap() = Some(v);
-        });
-    }));
-    let sched = std::mem::take(&mut *out.lock().unwrap());
-    let value = match r {
-        Ok(()) => match slot.lock().unwrap().take() {
+        }),
+    });
+    let value = match done.failure {
+        None => match slot.lock().unwrap().take() {
             Some(v) => Ok(v),
             None => Err(Failure::Panic("simulated execution produced no value".into())),
         },
-        Err(e) => {
-            let m = payload_msg(e);
+        Some(m) => {
             if m.contains("deadlock") {
                 Err(Failure::Deadlock(m))
             } else if m.contains(cfr_verif_seam::STEP_BUDGET_MSG) || m.contains("exceeded max_steps") {
@@ -356,5 +468,5 @@ pub fn simulate<T: Send + 'static>(spec: &SchedSpec, f: impl Fn() -> T + Send + 
             }
         }
     };
-    SimResult { value, sched }
+    SimResult { value, sched: done.out }
 }
